@@ -55,7 +55,8 @@ class C11(Check):
     def path(self, m):
         nmax = self.N[m.tier]
         na = m.choose([(k, None) for k in range(0, nmax + 1)])
-        nb = m.choose([(k, None) for k in range(0, nmax + 1)])
+        # quick: |A| + |B| <= 3 (overlap needs 1+1, order-with-overlap 2+1 / 1+2); thorough: both up to the bound
+        nb = m.choose([(k, None) for k in range(0, (nmax if m.tier == "thorough" else min(nmax, 3 - na)) + 1)])
         ins = sym_instructions(m, na, "a", TP) + sym_instructions(m, nb, "b", TP)
         obs = run_script(m, self.script(na, nb), ins)
         seq = [to_tree(m, x) for x in ins]
